@@ -1,5 +1,7 @@
 """C11 -- kNN and KDE estimators compute their documented formulas."""
 import math
+import os
+import sys
 from fractions import Fraction
 
 import numpy as np
@@ -408,7 +410,9 @@ def run(chk):
             blk = (t // 4) % 3
             cols = [kx, ky, kz][blk]
             if (t // 4) % 2 == 0:
-                vals = (rng.permutation(4 * N)[:N * cols].reshape(N, cols) - 2 * N).astype(np.int64)
+                # small whole numbers (repeats are fine for a kernel estimate): neighbouring points lie within a bandwidth of each
+                # other, so that every coordinate of the joint sample matters for the density
+                vals = rng.integers(-4, 5, (N, cols)).astype(np.int64)
                 stored = vals
             else:
                 stored = [Xf, Yf, Zf][blk].astype(np.float32)
@@ -429,6 +433,8 @@ def run(chk):
                       kde_conditional_mutual_information(Xa, Ya, Za, bandwidth=bw))
             ref = kde_reference(which, Xf, Yf, Zf, bw)
             hist.append((bw, v))
+            if os.environ.get("C11_DEBUG") and t % 4 == 0:
+                print("DEBUG", t, which, Xa.dtype, Ya.dtype, Za.dtype, bw, v, ref, file=sys.stderr)
             chk.case(key=("kdef", W_.tobytes(), str(bw), which, len(hist)), nontrivial=True)
             chk.count("kde_float.calls")
             if not math.isfinite(v) or abs(v - ref) > TOL * max(1.0, abs(ref)):
